@@ -1,5 +1,5 @@
 ---- MODULE MC_Listing ----
-\* all texts of <= MaxLines lines x <= MaxChars characters over Chars, every range on character boundaries
+\* all texts of <= MaxLines lines x <= MaxChars characters over Chars, every range on character boundaries that a diagnostic can carry (Reportable)
 EXTENDS GramListing, Json
 CharsQ == {X, E, S}
 CharsT == {X, E, S, T3, R4}
@@ -13,7 +13,7 @@ Next == /\ ~done
            \/ txt' = txt /\ done' = TRUE
 Ids(t) == [i \in 1..Len(t) |-> [c \in 1..Len(t[i]) |-> t[i][c].id]]
 SetToSeq(S0) == LET RECURSIVE f(_) f(T) == IF T = {} THEN <<>> ELSE LET m == CHOOSE x \in T : \A y \in T : x <= y IN <<m>> \o f(T \ {m}) IN f(S0)
-Emit == done => \A s \in Boundaries(txt) : \A e \in Boundaries(txt) : s <= e =>
+Emit == done => \A s \in Boundaries(txt) : \A e \in Boundaries(txt) : (s <= e /\ Reportable(txt, s, e)) =>
           LET ex == Expect(txt, s, e) IN
           PrintT(<<"LIST", ToJson([t |-> Ids(txt), s |-> s, e |-> e,
                    lines |-> SetToSeq(DOMAIN ex),
